@@ -122,9 +122,16 @@ def canonEntsR (readable : CEnt → Bool) (es : List CEnt) : String :=
 
 def canonEnts (es : List CEnt) : String := canonEntsR (fun _ => true) es
 
+/-- duplicates of one (key, version) (a value-log GC write-back next to the original entry):
+    the dump shows a readable copy when there is one -/
+def preferReadable (readable : CEnt → Bool) (es : List CEnt) : List CEnt :=
+  es.filter readable ++ es.filter (fun e => !readable e)
+
+/-- `dedupSorted` keeps the last of equal neighbours; feed it the preferred copy last -/
 def digestOf (r : RState) : String :=
-  let es := dedupSorted (r.entries.mergeSort entLe)
-  s!"ok next={r.nextTxnTs} n={es.length} h={hex64 (fnv64 (canonEntsR r.readable r.entries))}"
+  let all := (preferReadable r.readable r.entries).reverse
+  let es := dedupSorted (all.mergeSort entLe)
+  s!"ok next={r.nextTxnTs} n={es.length} h={hex64 (fnv64 (canonEntsR r.readable all))}"
 
 def recoverLine (fs : Fs) : String :=
   match recover false (crashKill fs) with
@@ -219,6 +226,47 @@ def crashStep (d : CrashDrv) (line : String) : CrashDrv × String :=
     let m1 := d.m.step (.compact dels outs)
     let (m2, w) := runW m1 []
     ({ d with m := m2, steps := d.steps ++ [{ fs0 := fs0, w := w, f := [] }] }, "S: " ++ toks w)
+  | "gc-none" :: _ =>
+    ({ d with steps := d.steps ++ [{ fs0 := d.m.fs, w := [], f := [] }] }, "none")
+  | "gc" :: rest =>
+    -- value-log GC (`valueLog.rewrite`) of file `fid`: the live entries are written back in
+    -- batches through `batchSet` (value log again, then WAL records *without* transaction bits,
+    -- original versions), then the file is deleted
+    let kv := kvArgsC rest
+    let fid := argNatC kv "fid" 0
+    let moved : List CEnt := ((argStrC kv "moved").splitOn "+").filterMap (fun kvs =>
+      match kvs.splitOn "@" with
+      | [k, v] =>
+        match fromHex k, v.toNat? with
+        | some k, some v => (d.vals.find? (fun x => x.1 == (k, v))).map (·.2)
+        | _, _ => none
+      | _ => none)
+    let sizes := ((argStrC kv "batches").splitOn ";").filterMap (·.toNat?)
+    let rots := ((argStrC kv "rots").splitOn ";").filterMap (·.toNat?)
+    let fs0 := d.m.fs
+    let rec go (m : MState) (vals : List ((Bytes × Nat) × CEnt)) (rest : List CEnt) (szs rts : List Nat)
+        (acc : List (List FsOp)) (fuel : Nat) : MState × List ((Bytes × Nat) × CEnt) × List (List FsOp) :=
+      match fuel, szs with
+      | 0, _ => (m, vals, acc)
+      | _, [] => (m, vals, acc)
+      | fuel + 1, k :: szs' =>
+        let batch := (rest.take k).map (fun e => { e with vfid := m.p.vfid })
+        let t : Txn := { ts := 0, ents := batch }
+        let rot := rts.headD 0 != 0
+        let m1 : MState := { m with p := { m.p with wq := vlogProg m.p t ++ (if rot then rotateProg m.p else []) } }
+        let (m2, a1) := runW m1 []
+        let cur := m2.p.cur
+        let walAtoms := (batch.map (fun e => [[FsOp.append (.mem cur) (.walPlain e)], [FsOp.zero (.mem cur)]])).flatten ++
+          (if m2.p.cfg.syncWrites then [[FsOp.sync (.mem cur)]] else [])
+        let m3 : MState := { p := { m2.p with mtxns := aset cur (m2.p.memTxns cur ++ [t]) m2.p.mtxns },
+                             fs := m2.fs.run walAtoms.flatten }
+        go m3 (batch.map (fun e => ((e.key, e.ver), e)) ++ vals) (rest.drop k) szs' (rts.drop 1) (acc ++ a1 ++ walAtoms) fuel
+    let (m1, vals, a) := go d.m d.vals moved sizes rots [] (sizes.length + 1)
+    let del := delFile (.vlog fid)
+    let m2 : MState := { m1 with fs := m1.fs.run del }
+    let (m3, f) := runF m2 []
+    ({ d with m := m3, vals := vals, steps := d.steps ++ [{ fs0 := fs0, w := a ++ [del], f := f }] },
+     s!"W: {toks (a ++ [del])} | F: {toks f}")
   | "compact-none" :: _ =>
     ({ d with steps := d.steps ++ [{ fs0 := d.m.fs, w := [], f := [] }] }, "none")
   | "crashes" :: _ => (d, "ok")
